@@ -36,7 +36,9 @@ SPEC = dict(
                "a delay; a thread never still owns anything of its previous attempt; after the loop every lockable is free; replaying "
                "the committed iterations one at a time in ticket (commit) order on a sequential model reproduces every object's value, "
                "version and per-object log exactly (non-commutative updates that read the whole neighbourhood); per-iteration "
-               "allocations keep their canaries until the commit point and the page pool does not grow with the number of attempts. "
+               "allocations keep their canaries until the commit point, the page pool does not grow with the number of attempts, and in "
+               "abort storms (every item aborts voluntarily on its first 4-40 attempts, 256 KiB per attempt) it stays at about one page "
+               "per thread, far below what 'kept until the thread's next commit' would hold. "
                "Held on the executions observed.",
     level_note="Trusts the harness's stamps/tickets (relaxed atomics on x86), that an aborted attempt leaves no harness state in shared "
                "memory (writes happen only after the last acquire), and LockManagerBase's protected accessors used by the probe.",
